@@ -25,7 +25,8 @@ T = "Kdf.Props.C19."
 THEOREMS = [T + t for t in ("search_build", "listed_found", "unlisted_none", "build_total", "build_junk_irrelevant",
                             "p2m_m2p_roundtrip", "both_views_same_page", "unlisted_missing_both",
                             "pfn_only_view", "xlat_history", "reinit_same_function", "failed_setup_retried",
-                            "reopen_last_dump_only", "reopen_mode_of_last", "reopen_views_last_only", "history_last_only")]
+                            "reopen_last_dump_only", "reopen_mode_of_last", "reopen_views_last_only", "history_last_only",
+                            "open_ok_both_complete", "open_fails_when_mfn_index_fails", "mapEnd_alloc_fails")]
 FCACHE_BLOCK = 4 << 20          # file cache block (FCACHE_ORDER 10, 4 KiB host pages)
 
 
@@ -812,6 +813,79 @@ def run(R):
         first_diff = dict(group="file", index=d, line=obs_line_of(blocks, d), impl=impl[d] if d < len(impl) else None,
                           model=model[d] if d < len(model) else None)
     samples.append(dict(layout="p2m" if ccases[1]["nonauto"] else "pfn", big_endian=ccases[1]["be"], map_offset=ccases[1]["mapoff"], entries=ccases[1]["tbl"][:6]))
+
+    # ---- group C with allocation failures: every realloc() call of kdump_open_fd fails once.  An open that reports
+    # success must give both views of the page list (c_check, as without a fault); a failure in one of the index arrays
+    # is also predicted by the model (openCtx with the allocation oracle of that index; theorems open_ok_both_complete,
+    # open_fails_when_mfn_index_fails, mapEnd_alloc_fails)
+    maxf = (1 << (64 - PS_SHIFT)) - 1
+    fcases = []
+    def fcase(tbl, nonauto=1, be=0):
+        fcases.append(dict(nonauto=nonauto, be=be, mapoff=0x1000, order=None, pad=0, tbl=tbl, note_name=".note.Xen", hist=False))
+    b1, b2 = rng.randrange(1, 1 << 30), rng.randrange(1 << 31, 1 << 40)
+    n1 = rng.randint(2, 40)
+    fcase([(b1 + i, b2 + i) for i in range(n1)])                                   # one ascending run in both views
+    fcase([(b1 + i, b2 + n1 - i) for i in range(n1)])                              # ... descending machine frames
+    fcase([(b1 + i, b2 + 7 * i) for i in range(rng.choice([1, 16, 17, 33]))])      # isolated machine frames (the array of singles grows at 16, 32)
+    fcase([(b1 + 5 * (i // 2) + i % 2, b2 + 9 * (i // 3) + i % 3) for i in range(rng.choice([32, 33, 34, 48]))], be=rng.randint(0, 1))  # 16+ short runs
+    fcase([(b1 + i, 0) for i in range(n1)], nonauto=0)                             # pfn-only layout
+    pool = [c for c in ccases if c["tbl"]]
+    for c in rng.sample(pool, min(len(pool), 6 if R.tier == "quick" else 120)):
+        fcases.append(dict(c, hist=False))
+    learn = []
+    for i, c in enumerate(fcases):
+        c["ops"] = c_ops_plain(R, c)
+        c["path"] = R.path("c19-f%d.dump" % i)
+        c["info"] = c_write(R, c, c["path"])
+        learn.append("openf 0 - 0 %s %d" % (c["path"], 0 if c["be"] else 48))
+    rc, out, err = R.run_harness(run_.exe, stdin_text="\n".join(learn + ["close"]) + "\n")
+    labels = [l.split(" ", 2)[2] if len(l.split(" ", 2)) > 2 else "" for l in out.split("\n") if l.startswith("# reallocs")]
+    if rc != 0 or len(labels) != len(fcases):
+        raise kdf.CheckBroken("s_xen openf learning pass stopped (rc=%s, %d of %d): %s" % (rc, len(labels), len(fcases), err[-600:]))
+    fblocks2 = []
+    for c, lab in zip(fcases, labels):
+        cnt = {"P": 0, "M": 0}
+        for n, ch in enumerate(lab, 1):
+            mp = ch.upper()
+            if mp in cnt:
+                cnt[mp] += 1
+            k = cnt.get(mp, 0)
+            b = c_lines(c, c["path"], c["info"])
+            b[1] = "openf %d %s %d %s %d" % (n, mp, k, c["path"], 0 if c["be"] else 48)
+            fblocks2.append((c, n, mp, k, lab, b))
+    kinds["open-with-failing-realloc"] = len(fblocks2)
+    kinds["open-with-failing-realloc:index-arrays"] = sum(1 for x in fblocks2 if x[2] != "-")
+    lines = [l for x in fblocks2 for l in x[5]]
+    rc, impl, err = run_.impl(lines)
+    mblocks = [x[5] for x in fblocks2 if x[2] != "-"]
+    model = run_.model([l for b in mblocks for l in b])
+    evaluations += sum(nobs(l) for l in lines); validated += len(model)
+    impl_m = []
+    for (c, n, mp, k, lab, b), o in zip(fblocks2, split_outs([x[5] for x in fblocks2], impl)):
+        if mp != "-":
+            impl_m += o
+        msg = None
+        where = {"P": "realloc #%d of the guest-frame index" % k, "M": "realloc #%d of the machine-frame index" % k}.get(mp, "a realloc outside the frame indexes")
+        if not o:
+            msg = "harness aborted (rc=%s): %s" % (rc, first_error(err))
+        elif o[0] == "open ok":
+            kk, m2 = c_check(c, o)
+            if m2 and kk >= len(o) and rc != 0:
+                m2 = "harness aborted (rc=%s): %s" % (rc, first_error(err))
+            if m2:
+                msg = "kdump_open_fd reported success although realloc call #%d of the open (%s) failed, and then: %s" % (n, where, m2)
+        elif o[0] == "open UNDOCUMENTED" or not o[0].startswith("open "):
+            msg = "kdump_open_fd with realloc call #%d (%s) failing answered '%s'" % (n, where, o[0])
+        if msg:
+            report(msg, dict(stream="xen", group="file-alloc", layout=dict(p2m=c["nonauto"], big_endian=c["be"], map_offset=c["mapoff"]),
+                             entries=c["tbl"], failing_realloc_of_open=n, realloc_calls_of_open=lab, which=where, ops=c["ops"][:40],
+                             input="\n".join(b[:40]) + "\n", impl_output=o[:6], stderr=err[-1200:], broken_theorems=proof["broken"],
+                             how="tools/dumpgen.py write_xc_core(path, entries, p2m, be=…, map_off=…) then harness/s_xen.c: openf <n> <map> <k> <path> <48|0>; ops"))
+            break
+    d = kdf.diff_streams(impl_m, model)
+    if d is not None and first_diff is None and not reported:
+        first_diff = dict(group="file-alloc", index=d, line=obs_line_of(mblocks, d), impl=impl_m[d] if d < len(impl_m) else None,
+                          model=model[d] if d < len(model) else None)
 
     # ---- group C, re-open histories: the same context is given 2-4 dumps one after the other.  Each stage is
     # (1) checked against the page list of ITS dump (c_check) and (2) compared with the same operations on a
